@@ -40,6 +40,7 @@ type LetSpec struct {
 
 type LoopSpec struct {
 	Invs      []Clause
+	Steps     []Clause // checked at every back edge
 	Decreases *CExpr
 }
 
@@ -74,6 +75,8 @@ type Contract struct {
 	Ghosts     []GhostUpdate
 	ElemFacts  []ElemFact
 	Inline     bool     // callee is inlined at call sites instead of using the contract
+	Effect     bool     // the callee has an externally visible effect (file write, truncate, ...)
+	EffectReqs []Clause // obligations at every call to an effectful callee
 	Implements []string // keys of interface-method contracts whose ensures this method must satisfy
 	GhostInit  []string // results whose type invariant is established by choice of their fresh ghost state
 	Closures   map[int]*Contract
@@ -387,6 +390,15 @@ func parseContractText(lines []string, file string, pkgPath string, voc *Vocab) 
 				return fail(fmt.Errorf("%s:%d: %v", file, lineNo, err))
 			}
 			cur.ElemFacts = append(cur.ElemFacts, ElemFact{Slice: m[1], Idx: m[2], Val: m[3], X: x})
+		case "effect":
+			cur.Effect = true
+		case "effects":
+			// effects require label: expr
+			c, err := parseClause(strings.TrimSpace(strings.TrimPrefix(rest, "require")), file, lineNo)
+			if err != nil {
+				return fail(err)
+			}
+			cur.EffectReqs = append(cur.EffectReqs, c)
 		case "implements":
 			cur.Implements = append(cur.Implements, rest)
 		case "ghostinit":
@@ -436,6 +448,12 @@ func parseContractText(lines []string, file string, pkgPath string, voc *Vocab) 
 							return fail(err)
 						}
 						ls.Invs = append(ls.Invs, c)
+					} else if strings.HasPrefix(body, "step") {
+						c, err := parseClause(strings.TrimSpace(strings.TrimPrefix(body, "step")), file, lineNo)
+						if err != nil {
+							return fail(err)
+						}
+						ls.Steps = append(ls.Steps, c)
 					} else if strings.HasPrefix(body, "decreases") {
 						x, err := parseCExpr(strings.TrimSpace(strings.TrimPrefix(body, "decreases")))
 						if err != nil {
